@@ -1,6 +1,7 @@
 pub mod c07;
 pub mod c08;
 pub mod c09;
+pub mod c10;
 pub mod c14;
 pub mod c19;
 pub mod c20;
@@ -19,6 +20,7 @@ pub fn run(ctx: &Ctx) -> i32 {
         "C07" => return c07::run(ctx),
         "C08" => return c08::run(ctx),
         "C09" => return c09::run(ctx),
+        "C10" => return c10::run(ctx),
         "C14" => return c14::run(ctx),
         "C19" => return c19::run(ctx),
         "C20" => return c20::run(ctx),
@@ -38,6 +40,10 @@ pub fn replay(_ctx: &Ctx, kind: &str, input: &Value) -> Result<Vec<Violation>, S
         "case-c09" => {
             let case: crate::scenario::Case = serde_json::from_value(input.clone()).map_err(|e| e.to_string())?;
             Ok(c09::replay(&case))
+        }
+        "case-c10" => {
+            let case: crate::scenario::Case = serde_json::from_value(input.clone()).map_err(|e| e.to_string())?;
+            Ok(c10::replay(&case))
         }
         "case-c14" => {
             let case: crate::scenario::Case = serde_json::from_value(input.clone()).map_err(|e| e.to_string())?;
